@@ -120,6 +120,14 @@ def run(ctx, budget):
     L = 4 if ctx.thorough else 3
     for script in itertools.product(alphabet, repeat=L):
         scripts.append((lg, list(script) + [('r',), ('r',)]))
+    def untuple(o):
+        return tuple(tuple(x) if isinstance(x, list) and o[0] == 'T' else x for x in o)
+    for k, r in enumerate(fv.corpus('C11')):      # regression corpus first
+        if 'file' in r and 'ops' in r:
+            data = bytes.fromhex(r['file'])
+            path = ic.write_log(data, 'c11_corpus_%d.p1log' % k)
+            scripts.insert(0, ((data, path, rc.unfiltered(path)), [untuple(o) for o in r['ops']]))
+            ctx.count('corpus_cases')
     for (data, path, msgs), ops in scripts:
         r = apply_ops(path, ops)
         text = ';'.join(op_text(o) for o in ops) or '-'
@@ -174,9 +182,14 @@ def check(ctx):
 def replay(ctx, path):
     obj = json.load(open(path))
     r = obj['input']
-    p = ic.write_log(bytes.fromhex(r['file']))
+    data = bytes.fromhex(r['file'])
+    p = ic.write_log(data)
     ops = [tuple(tuple(x) if isinstance(x, list) and o[0] == 'T' else x for x in o) for o in r['ops']]
-    print(apply_ops(p, ops))
+    res = apply_ops(p, ops)
     msgs = rc.unfiltered(p)
-    print(ctx.driver(['rdcursorspec %s %s' % (rc.log_text(msgs), r['ops_text'])]))
-    return 1
+    text = ';'.join(op_text(o) for o in ops) or '-'
+    so = ctx.driver(['rdcursorspec %s %s' % (rc.log_text(msgs), text)])[0]
+    print('reader:', res[0] if res[0] != 'raise' else res, ' spec:', so)
+    if res[0] == 'raise' or ','.join(res[0]) != so:
+        ctx.violation('C11/replay', 'replayed script still differs from the abstract cursor', r)
+    return fv.finish(ctx, 'proof', None)
